@@ -1,4 +1,4 @@
-import ElvisVerif.Lemmas.TcpFullGap
+import ElvisVerif.Lemmas.TcpFullHsRound
 import ElvisVerif.Props.C01Converge
 /-!
 # C01 — convergence from (almost) any reachable state of the closed system nobody closes
@@ -348,13 +348,10 @@ theorem c01_converges_established_bound_partial (ia ib : Seq) (ma mb : U16) (sim
     ((max ta.outgoing.text.length tb.outgoing.text.length + 65534) / 65535) (by omega) (by omega)
   exact ⟨s', ta', tb', hfold, hd, d1, d2⟩
 
-/-- **(f), NOT proved: the handshake after loss.**  From every reachable state some fair rounds (SYN / SYN-ACK
-    retransmission: every tick of a fair round flags the SYN on the retransmission queue, the next phase re-sends
-    and delivers it) lead — by plain ops, within H31 — to a state in which both endpoints are ESTABLISHED.
-    The loss-free handshake is `handshake_steady` (`Props/C01FromOpen.lean`).  Missing: the
-    case analysis over the reachable pre-ESTABLISHED pairs (SYN-SENT / no TCB + LISTEN, SYN-SENT / SYN-RECEIVED,
-    ESTABLISHED / SYN-RECEIVED, SYN-SENT / SYN-SENT, SYN-RECEIVED / SYN-RECEIVED, …) with arbitrary reorder heaps —
-    in SYN-SENT the heap gate is off and `segment_arrives` processes everything parked. -/
+/-- **(f) the handshake after loss** (proved below: `c01_handshake_after_loss`).  From every reachable state some fair
+    rounds (SYN / SYN-ACK retransmission: every tick of a fair round flags the SYN on the retransmission queue, the next
+    phase re-sends and delivers it) lead — by plain ops, within H31 — to a state in which both endpoints are
+    ESTABLISHED. -/
 def C01HandshakeAfterLossStatement : Prop :=
   ∀ (ia ib : Seq) (ma mb : U16) (simultaneous : Bool) (sys0 s : Sys) (rs : List Res),
     100 ≤ ma.toNat → 100 ≤ mb.toNat →
@@ -380,6 +377,150 @@ theorem c01_converges_full_of_handshake (h : C01HandshakeAfterLossStatement) : C
     h0 (hrun.trans hr1) h31' ta tb hta htb ea eb
   exact ⟨rounds ++ [1, 2 * ((max ta.outgoing.text.length tb.outgoing.text.length + 65534) / 65535) + 2], s', ta', tb',
     by rw [foldlM_fairRound_append _ _ _ _ hfold]; exact hf, hd⟩
+
+/-! ## the handshake after loss, and the full statement -/
+
+/-- all invariants of the development hold in every reachable state -/
+theorem all_of_reach (ia ib : Seq) (ma mb : U16) (simultaneous : Bool) (sys0 s : Sys) (rs : List Res)
+    (hma : SPACE_FOR_HEADERS ≤ ma.toNat) (hmb : SPACE_FOR_HEADERS ≤ mb.toNat)
+    (h0 : Sys.run {} [.open .A ia ma, if simultaneous then .open .B ib mb else .listen .B ib mb] = .ok (sys0, rs))
+    (hrun : PlainRun sys0 s) (h31 : RoomH s) : All (issOf ia ib) (mtuOf ma mb) s :=
+  have hc := conv_init ia ib ma mb simultaneous sys0 rs h0
+  have hx := ext_init ia ib ma mb simultaneous sys0 rs hma hmb h0
+  have hf0 := finv_init ia ib ma mb simultaneous sys0 rs h0
+  ⟨good_of_reach ia ib ma mb simultaneous sys0 s rs hma hmb h0 hrun h31, finv_run hc hx hf0 hrun h31,
+    uinv_run hc hx (uinv_init ia ib ma mb simultaneous sys0 rs h0) hrun h31,
+    hsinv_run hc hx hf0 (hsinv_init ia ib ma mb simultaneous sys0 rs h0) hrun h31⟩
+
+/-- **every fair round is defined, from every reachable state**: `fairRound k` never panics, is a run of plain ops (so its
+    result is reachable again, within H31: the `submitted` logs do not change), for every `k` -/
+theorem c01_fair_round_total (ia ib : Seq) (ma mb : U16) (simultaneous : Bool) (sys0 s : Sys) (rs : List Res)
+    (hma : SPACE_FOR_HEADERS ≤ ma.toNat) (hmb : SPACE_FOR_HEADERS ≤ mb.toNat)
+    (h0 : Sys.run {} [.open .A ia ma, if simultaneous then .open .B ib mb else .listen .B ib mb] = .ok (sys0, rs))
+    (hrun : PlainRun sys0 s) (h31 : RoomH s) (k : Nat) :
+    ∃ s', fairRound k s = .ok s' ∧ PlainRun s s' ∧ RoomH s' ∧ s'.a.submitted = s.a.submitted ∧
+      s'.b.submitted = s.b.submitted := by
+  have a := all_of_reach ia ib ma mb simultaneous sys0 s rs hma hmb h0 hrun h31
+  obtain ⟨s', e, p, g, sub⟩ := fairRound_any k s a.good a.f
+  exact ⟨s', e, p, g.room, sub .A, sub .B⟩
+
+/-- **(f) the handshake completes after any loss.**  From EVERY reachable state (file header) — TCBs in SYN-SENT,
+    SYN-RECEIVED or ESTABLISHED in any reachable combination, the passive side possibly still without TCB, SYNs, SYN-ACKs,
+    ACKs and data lost, duplicated or reordered in any way, any reorder heaps — at most `meas s ≤ 13` fair rounds of ONE
+    phase each lead to a state in which both endpoints are ESTABLISHED; the rounds are plain runs and do not touch the
+    `submitted` logs.  (`Full.handshake_rounds`: the rank none < SYN-SENT < SYN-RECEIVED < ESTABLISHED of a side never
+    decreases; in every round the rank of some side increases — the expired timer re-sends the SYN / SYN-ACK that the
+    invariants keep on the queue, a SYN-bearing segment moves a listening or SYN-SENT side on, an acceptable ACK-bearing
+    segment at `IRS + 1` moves SYN-RECEIVED to ESTABLISHED whatever the reorder heap holds — or, when an ESTABLISHED side has
+    nothing at all to send, the peer's retransmitted SYN-ACK makes it queue an ACK, which the next round delivers.) -/
+theorem c01_handshake_after_loss : C01HandshakeAfterLossStatement := by
+  intro ia ib ma mb simultaneous sys0 s rs hma hmb h0 hrun h31
+  have h50 : SPACE_FOR_HEADERS = 50 := rfl
+  have a := all_of_reach ia ib ma mb simultaneous sys0 s rs (by omega) (by omega) h0 hrun h31
+  have hm : ∀ x, SPACE_FOR_HEADERS < (mtuOf ma mb x).toNat := by
+    intro x
+    cases x
+    · show 50 < ma.toNat; omega
+    · show 50 < mb.toNat; omega
+  obtain ⟨rounds, s1, hfold, p, a1, h1, h2, sub, _, _⟩ := handshake_rounds hm (meas s) s a (Nat.le_refl _)
+  have est : ∀ x, rk s1 x = 3 → ∃ t, (s1.side x).tcb = some t ∧ t.state = .Established := by
+    intro x hx
+    cases ht : (s1.side x).tcb with
+    | none => rw [rk_none ht] at hx; cases hx
+    | some t => exact ⟨t, rfl, ((state_of_rk a1.good ht).2.2).1 hx⟩
+  obtain ⟨ta, hta, ea⟩ := est .A h1
+  obtain ⟨tb, htb, eb⟩ := est .B h2
+  exact ⟨rounds, s1, ta, tb, hfold, p, a1.good.room, hta, htb, ea, eb⟩
+
+/-- **C01 convergence from ANY reachable state** — `C01ConvergesFullStatement` of `Props/C01Converge.lean`: from every
+    reachable state of the closed system nobody closes (any interleaving of writes, reads, ticks, emits and deliveries
+    of any history element to its addressee: loss, duplication, reordering, delay; MTUs ≥ 100; H31) some fair rounds end
+    in a `Done` state. -/
+theorem c01_converges_full : C01ConvergesFullStatement :=
+  c01_converges_full_of_handshake c01_handshake_after_loss
+
+/-- **the same with everything explicit**: from any reachable state `s` there are at most 15 fair rounds — at most 13 of
+    one phase for the handshake, the clean-up round of one phase, and one round of `2n + 2` phases,
+    `n ≤ ⌈max (|submitted_A|, |submitted_B|) / 65535⌉` — after which: `Done` (all queues, heaps, buffers and unsent texts
+    empty, both sides ESTABLISHED and silent), `delivered = submitted` in both directions, the `submitted` logs are those
+    of `s`, `segments()` returns `[]` on both sides, and every further fair round ends `Done` again with the history
+    unchanged.  In all at most `16 + 2⌈max submitted / 65535⌉` exchange phases. -/
+theorem c01_converges_full_bound (ia ib : Seq) (ma mb : U16) (simultaneous : Bool) (sys0 s : Sys) (rs : List Res)
+    (hma : 100 ≤ ma.toNat) (hmb : 100 ≤ mb.toNat)
+    (h0 : Sys.run {} [.open .A ia ma, if simultaneous then .open .B ib mb else .listen .B ib mb] = .ok (sys0, rs))
+    (hrun : PlainRun sys0 s) (h31 : RoomH s) :
+    ∃ (rounds : List Nat) (s' : Sys) (ta' tb' : Tcb),
+      (rounds.foldlM (fun st k => fairRound k st) s = .ok s') ∧ PlainRun s s' ∧ Done s' ta' tb' ∧
+      s'.b.delivered = s'.a.submitted ∧ s'.a.delivered = s'.b.submitted ∧
+      s'.a.submitted = s.a.submitted ∧ s'.b.submitted = s.b.submitted ∧
+      rounds.length ≤ 15 ∧
+      rounds.sum ≤ 16 + 2 * ((max s.a.submitted.length s.b.submitted.length + 65534) / 65535) ∧
+      (∀ x, ∃ s2, s'.step (.emit x) = .ok (s2, .emitted s'.historyLen []) ∧ s2.history = s'.history) ∧
+      (∀ k, ∃ s'' ta'' tb'', fairRound k s' = .ok s'' ∧ Done s'' ta'' tb'' ∧ s''.historyLen = s'.historyLen ∧
+        s''.b.delivered = s''.a.submitted ∧ s''.a.delivered = s''.b.submitted) := by
+  have h50 : SPACE_FOR_HEADERS = 50 := rfl
+  have a := all_of_reach ia ib ma mb simultaneous sys0 s rs (by omega) (by omega) h0 hrun h31
+  have hm : ∀ x, SPACE_FOR_HEADERS < (mtuOf ma mb x).toNat := by
+    intro x
+    cases x
+    · show 50 < ma.toNat; omega
+    · show 50 < mb.toNat; omega
+  obtain ⟨r1, s1, hfold1, p1, a1, h1, h2, sub1, hl1, hone1⟩ := handshake_rounds hm (meas s) s a (Nat.le_refl _)
+  have hmeas : meas s ≤ 13 := by unfold meas; split <;> omega
+  have est : ∀ x, rk s1 x = 3 → ∃ t, (s1.side x).tcb = some t ∧ t.state = .Established := by
+    intro x hx
+    cases ht : (s1.side x).tcb with
+    | none => rw [rk_none ht] at hx; cases hx
+    | some t => exact ⟨t, rfl, ((state_of_rk a1.good ht).2.2).1 hx⟩
+  obtain ⟨ta, hta, ea⟩ := est .A h1
+  obtain ⟨tb, htb, eb⟩ := est .B h2
+  -- unsent text is part of what was submitted
+  have hua : ta.outgoing.text.length ≤ s.a.submitted.length := by
+    obtain ⟨pre, hsub, _⟩ := (a1.good.tinv .A ta hta).out
+    have : (s1.side .A).submitted = s.a.submitted := sub1 .A
+    rw [← this, hsub, List.length_append]; omega
+  have hub : tb.outgoing.text.length ≤ s.b.submitted.length := by
+    obtain ⟨pre, hsub, _⟩ := (a1.good.tinv .B tb htb).out
+    have : (s1.side .B).submitted = s.b.submitted := sub1 .B
+    rw [← this, hsub, List.length_append]; omega
+  let n := (max s.a.submitted.length s.b.submitted.length + 65534) / 65535
+  obtain ⟨s2, s', ta', tb', hf1, hf2, hfold2, p2, hd, d1, d2, _, _, hsil, hstay⟩ :=
+    c01_converges_established_partial ia ib ma mb simultaneous sys0 s1 rs hma hmb h0 (hrun.trans p1) a1.good.room ta tb
+      hta htb ea eb n (by show _ ≤ 65535 * ((max _ _ + 65534) / 65535); omega)
+      (by show _ ≤ 65535 * ((max _ _ + 65534) / 65535); omega)
+  -- the convergence rounds do not touch the logs
+  obtain ⟨s2', e2', _, g2', sub2⟩ := fairRound_any 1 s1 a1.good a1.f
+  rw [hf1] at e2'
+  cases e2'
+  have a2 : All (issOf ia ib) (mtuOf ma mb) s2 := all_run a1 (by
+    obtain ⟨_, e, p, _, _⟩ := fairRound_any 1 s1 a1.good a1.f
+    rw [hf1] at e; cases e; exact p) g2'.room
+  obtain ⟨s3', e3', _, _, sub3⟩ := fairRound_any (2 * n + 2) s2 a2.good a2.f
+  rw [hf2] at e3'
+  cases e3'
+  refine ⟨r1 ++ [1, 2 * n + 2], s', ta', tb', by rw [foldlM_fairRound_append _ _ _ _ hfold1]; exact hfold2,
+    p1.trans p2, hd, d1, d2, ?_, ?_, ?_, ?_, hsil, hstay⟩
+  · have := sub3 .A; have := sub2 .A; have := sub1 .A
+    show (s'.side .A).submitted = (s.side .A).submitted
+    simp_all
+  · have := sub3 .B; have := sub2 .B; have := sub1 .B
+    show (s'.side .B).submitted = (s.side .B).submitted
+    simp_all
+  · simp only [List.length_append, List.length_cons, List.length_nil]
+    omega
+  · have hs1 : ∀ l : List Nat, (∀ k ∈ l, k = 1) → l.sum ≤ l.length := by
+      intro l
+      induction l with
+      | nil => intro _; simp
+      | cons x xs ih =>
+        intro h
+        have hx : x = 1 := h x List.mem_cons_self
+        have := ih (fun k hk => h k (List.mem_cons_of_mem _ hk))
+        simp only [List.sum_cons, List.length_cons]
+        omega
+    have := hs1 r1 hone1
+    simp only [List.sum_append, List.sum_cons, List.sum_nil]
+    omega
 
 /-! ### non-vacuity: receive buffers NOT read, parked segments, lost data, a lost ACK -/
 
